@@ -347,6 +347,45 @@ def run(shard, rec, rng):
         rec.observe("middleware_exports_replaced_after_use")
         if served["n.txt"] != ("200", b"NEW-ROOT-FILE") or served["a.txt"][0] == "200" or served["sub/b.txt"][0] == "200":
             rec.violation("C14/withdrawn-root-still-served", f"after the /static export was replaced by another directory: {served!r}", {"function": "static-file", "request_path": "exports replaced"}, monitor="response-body")
+        # ---- configuration + history: exports whose directories do not exist yet when the middleware is built (an
+        # upload area created on first use) next to exports that do; each URL prefix only ever serves its own directory
+        for order in ("missing-first", "missing-middle", "missing-last"):
+            internal = os.path.join(top, f"internal-{order}")
+            os.makedirs(internal)
+            with open(os.path.join(internal, "keys.txt"), "w") as f:
+                f.write("SENTINEL-SECRET internal keys")
+            with open(os.path.join(internal, "page.txt"), "w") as f:
+                f.write("INTERNAL-PAGE")
+            uploads, later = os.path.join(top, f"uploads-{order}"), os.path.join(top, f"later-{order}")
+            exports = [("/internal", internal), ("/public", root)]
+            exports.insert({"missing-first": 0, "missing-middle": 1, "missing-last": 2}[order], ("/uploads", uploads))
+            exports.insert(1, ("/later", later))
+            mw = SD.SharedDataMiddleware(nf, dict(exports))
+
+            def ask(path_):
+                env_ = create_environ()
+                env_["PATH_INFO"] = path_
+                it_, st_, _ = run_wsgi_app(mw, env_)
+                body_ = b"".join(it_)
+                if hasattr(it_, "close"):
+                    it_.close()
+                return st_[:3], body_
+
+            before_ = {p_: ask(p_) for p_ in ("/uploads/keys.txt", "/later/keys.txt", "/uploads/page.txt", "/internal/page.txt", "/public/a.txt")}
+            os.makedirs(uploads)
+            with open(os.path.join(uploads, "keys.txt"), "w") as f:
+                f.write("UPLOADED-BY-A-USER")
+            after_ = {p_: ask(p_) for p_ in ("/uploads/keys.txt", "/later/keys.txt", "/uploads/page.txt", "/internal/page.txt", "/public/a.txt")}
+            rec.case()
+            rec.nontrivial(("exports-missing-at-start", order))
+            rec.observe("middlewares_with_exports_missing_at_start")
+            wrong = [(when, p_, got_) for when, d_ in (("before", before_), ("after", after_)) for p_, got_ in d_.items()
+                     if (p_.startswith(("/uploads", "/later")) and got_[0] == "200" and got_[1] != b"UPLOADED-BY-A-USER") or (p_ == "/internal/page.txt" and got_ != ("200", b"INTERNAL-PAGE"))
+                     or (p_ == "/public/a.txt" and got_ != ("200", b"A-FILE"))]
+            if wrong or after_["/uploads/keys.txt"] != ("200", b"UPLOADED-BY-A-USER"):
+                rec.violation("C14/export-serves-another-exports-directory", f"exports {[(k_, os.path.basename(v_)) for k_, v_ in exports]!r} ({order}); before /uploads existed: {before_!r}; after: {after_!r}",
+                              {"function": "static-file", "request_path": "exports missing at start", "order": order}, monitor="response-body")
+                break
         # ---- history: a relative trusted directory is resolved against the working directory of the moment
         rec.case()
         rec.nontrivial(("relative-directory-chdir",))
